@@ -47,10 +47,32 @@ func init() {
 			for _, d := range [][2]int64{{21, 33}, {33, 21}, {25, 37}, {21, 41}, {8, 33}, {45, 21}, {29, 64}} {
 				ts = append(ts, Task{Pkg: "qrcode/decoder", Func: "VerifC06QRMatrixDimsOne", Args: d[:], Note: "non-square matrix w x h"})
 			}
+			// QR version information: one block free, the other unreadable
+			for _, v := range []int64{7, 8, 20, 40} {
+				for which := int64(0); which <= 1; which++ {
+					ts = append(ts, Task{Pkg: "qrcode/decoder", Func: "VerifC06QRVersionBlocks", Args: ints(v, which), Note: "matrix of version v's size; the top-right (0) or bottom-left (1) 18-bit version block free: the version read matches the matrix or is refused"})
+				}
+			}
+			// 1-D rows cut after every module (all 32 alignments of the row end near the symbol's end)
+			for wi := int64(0); wi <= 10; wi++ {
+				if wi == 2 {
+					continue // UPC-A writer delegates to EAN-13
+				}
+				free := int64(-1)
+				if wi <= 4 || wi == 7 || wi == 8 {
+					free = 1 + wi%3
+				}
+				if tier != "thorough" && (wi == 0 || wi == 4) {
+					free = -1
+				}
+				ts = append(ts, Task{Pkg: "oned", Func: "VerifC06Truncated", Args: ints(wi, free, 3+wi), Note: "writer index, position of a free character (< 0: none), quiet modules in front: DecodeRow on every prefix of the rendered symbol"})
+			}
 			return ts
 		},
 		Bounds: func(tier string) map[string]interface{} {
 			return map[string]interface{}{
+				"qr_version":    "matrices of versions 7, 8, 20, 40 with one 18-bit version block free and the rest white",
+				"truncated_1d":  "for ten writer/reader pairs: the rendered template (one free character for digit symbologies, Code 39, Codabar in part) cut after every module, with the row end at every 32-bit alignment for the last 12 cuts: DecodeRow returns result xor error",
 				"qr_stream":     "every byte string of length <= 3 (quick; 4 thorough) x versions {1,10,27} x 4 hint settings: result xor FormatException, no panic",
 				"dm_stream":     "every codeword string of length <= 2 (3 thorough)",
 				"aztec_bits":    "every bit sequence of length <= 15 (19 thorough) through HighLevelDecode",
